@@ -46,6 +46,11 @@ class EdgeList:
             corner_1 = data[0]
             corner_2 = data[1]
 
+            if (corner_1, corner_2) in ((0, 3), (4, 7)):
+                # edges of a face run from corner i to the next one: the closing
+                # edge goes from 3 to 0 (7 to 4) and so does its data
+                corner_1, corner_2 = corner_2, corner_1
+
             vertex_1 = vertices[corner_1]
             vertex_2 = vertices[corner_2]
 
